@@ -22,6 +22,7 @@ ENV = {"ASAN_OPTIONS": "detect_leaks=0:abort_on_error=0", "UBSAN_OPTIONS": "prin
 OPENCC = "/usr/share/opencc"
 SYNTH = ["synth_express", "synth_fluid"]
 SYNTH_PUNCT = ["synth_punct_express", "synth_punct_fluid"]   # + punctuator, punct_segmentor, punct_translator
+SYNTH_KB = ["synth_kb_express", "synth_kb_fluid"]             # + key_binder first (bindings: coq/Eng/Oracle.v synth_bindings)
 STOCK = ["luna_pinyin", "luna_pinyin_fluid", "cangjie5", "cangjie5_fluid"]
 
 # keysyms
@@ -508,6 +509,45 @@ def gen_punct_history(rng, length, full_shape=True):
             ops.append(rng.choice(["sel %d" % rng.randrange(0, 10), "hl %d" % rng.randrange(0, 10), "commit", "getcommit",
                                    "caret %d" % rng.randrange(0, 6), "page 0", "clear",
                                    "input " + "".join(rng.choice(",.;3a<") for _ in range(rng.randrange(1, 4))).encode().hex()]))
+        else:
+            ops += [o for o in gen_api_history(rng, 3) if full_shape or not o.startswith("opt full_shape")]
+    return ops[:length]
+
+
+# ---------------------------------------------------------------------------
+# round 3, stage 3: the key binder on the synth_kb_* schemas
+# ---------------------------------------------------------------------------
+
+KB_CTRL = [ord(c) for c in "pnbfhgsaecdkwqj"]     # Control+<letter> bindings (s: self-sending, a/e: cycle, c/j: chains, k: three bindings)
+
+
+def gen_kb_history(rng, length, full_shape=True):
+    """Bound keys in every condition (idle / composing / with a menu / after paging), the paging keys
+    comma period minus equal with letters after a period (ReinterpretPagingKey), the option actions,
+    the self-sending, cyclic and chained bindings, mixed with typing, punctuation, navigation and
+    arbitrary API ops.  full_shape=False leaves out the binding that toggles full_shape (C03)."""
+    ops = []
+    opt_keys = [key(46, CTRL), key(50, CTRL | SHIFT), key(51, CTRL | SHIFT), key(XK["Tab"]), key(XK["Tab"], SHIFT)]
+    if full_shape:
+        opt_keys.append(key(52, CTRL | SHIFT))
+    while len(ops) < length:
+        r = rng.random()
+        if r < 0.28:
+            for _ in range(rng.choice([1, 1, 2, 3])):
+                ops.append(key(ord(rng.choice(LETTERS))))
+        elif r < 0.50:
+            ops.append(key(rng.choice(KB_CTRL), CTRL))
+        elif r < 0.66:
+            ch = rng.choice(",.-=[,..")
+            for _ in range(rng.choice([1, 1, 2, 3])):
+                ops.append(key(ord(ch)))
+        elif r < 0.72:
+            ops.append(rng.choice(opt_keys))
+        elif r < 0.84:
+            ops += gen_punct_history(rng, 2, full_shape=full_shape)
+        elif r < 0.93:
+            ops.append(key(XK[rng.choice(["space", "BackSpace", "Return", "Escape", "Left", "Home", "End", "Down", "Next",
+                                          "Prior", "Up"])]))
         else:
             ops += [o for o in gen_api_history(rng, 3) if full_shape or not o.startswith("opt full_shape")]
     return ops[:length]
